@@ -6,13 +6,15 @@ import GdVerif.Run.Settings
 import GdVerif.Run.Views
 import GdVerif.Run.Games
 import GdVerif.Run.IdCheck
+import GdVerif.Run.Quake
+import GdVerif.Run.GenQuake
 /-
   gdmodel: the model behind a line protocol.
     gdmodel run        : reads `<id> <entry> <args…>` lines on stdin, prints `<id> <outcome>`
 -/
 open Gd Gd.Run
 
-def allEntries : List (String × (List String → String)) := readerEntries ++ valveEntries ++ masterEntries ++ settingsEntries ++ viewEntries ++ gameEntries ++ idCheckEntries
+def allEntries : List (String × (List String → String)) := readerEntries ++ valveEntries ++ masterEntries ++ settingsEntries ++ viewEntries ++ gameEntries ++ idCheckEntries ++ quakeEntries
 
 def runLine (line : String) : String :=
   match line.trimAscii.toString.splitOn " " with
@@ -40,6 +42,7 @@ def main (args : List String) : IO UInt32 := do
     | some seed, some n =>
       let lines := match suite with
         | "valve" => genValve seed n
+        | "quake" => genQuake seed n
         | _ => []
       for l in lines do IO.println l
       return 0
